@@ -832,7 +832,7 @@ func c19Fan(c *CaseC19, w *c19World, fl *Fails) {
 func init() {
 	register(PropT[CaseC19]{
 		ID:   "C19",
-		Rule: "rapid: a workload = 8..40 calls drawn from a table of 37 closures covering every package (shape, integrate, operated, detector, transform, object, common, spatial) over ONE shared set of arguments (ID slices in both notations with repeated / nested / neighbouring entries, two *Point, *TileXYZ, *QuadkeyAndVerticalID, *ExtendedSpatialID), executed by G in 2..16 goroutines, 3 rounds, released by a start barrier; every goroutine runs an overlapping share of the call list so that different operations meet on the same arguments. Test binary built with -race. Non-trivial: >=2 goroutines and >=2 different operation kinds. Distinct = hash of the workload.",
+		Rule: "rapid: a workload = 8..40 calls drawn from a table of 44 closures covering every exported function and method of every package (shape, integrate, operated, detector, transform, object, common, spatial) over ONE shared set of arguments (ID slices in both notations with repeated / nested / neighbouring entries, two *Point, *TileXYZ, *QuadkeyAndVerticalID, *ExtendedSpatialID), executed by G in 2..16 goroutines, 3 rounds, released by a start barrier; every goroutine runs an overlapping share of the call list so that different operations meet on the same arguments. Test binary built with -race. Non-trivial: >=2 goroutines and >=2 different operation kinds. Distinct = hash of the workload.",
 		Assumptions: []string{
 			"oracle: (1) no race-detector report is written during the workload (GORACE log_path is polled after every workload), (2) every concurrent call returns the canonicalised result the same call returned sequentially before, (3) shared arguments are unchanged afterwards",
 			"schedules are sampled by real parallel execution (16 cores), not enumerated: a race that needs a rare interleaving can be missed; unsynchronised writes on a hot path are reported within the first workloads",
